@@ -9,6 +9,8 @@ pub fn gen_model(fam: &str, seed: u64, maxn: usize, tiny: bool) -> Model {
         "mixed" => ["lifted", "lifted", "lifted_nodepth", "longarc", "knapsack", "setpack", "setpack_longarc", "lifted"][r.gen_range(0..8)],
         "allimpacted" => ["lifted", "lifted", "lifted_nodepth", "knapsack", "setpack", "lifted"][r.gen_range(0..6)],
         "longarcs" => ["longarc", "longarc", "setpack_longarc"][r.gen_range(0..3)],
+        // heavy state re-convergence: few base states per layer / few distinct weights, many paths
+        "reconv" => ["knapsack_eq", "knapsack_eq", "lifted_narrow", "lifted_narrow_nodepth"][r.gen_range(0..4)],
         f => f,
     };
     let rub = [RubMode::None, RubMode::None, RubMode::Exact, RubMode::Slack][r.gen_range(0..4)];
@@ -21,6 +23,9 @@ pub fn gen_model(fam: &str, seed: u64, maxn: usize, tiny: bool) -> Model {
         "lifted_nodepth" => Model::random_lifted(seed, n, b, mm, false, false, RubMode::None, dom),
         "longarc" => Model::random_lifted(seed, n, b, mm, false, true, RubMode::None, dom),
         "knapsack" => Model::random_knapsack(seed, n, rub, dom),
+        "knapsack_eq" => Model::random_knapsack_eq(seed, n, rub, dom),
+        "lifted_narrow" => Model::random_lifted(seed, n, 2, 3, true, false, rub, dom),
+        "lifted_narrow_nodepth" => Model::random_lifted(seed, n, 2, 3, false, false, RubMode::None, dom),
         "setpack" => Model::random_setpack(seed, n.min(7), rub, dom, false),
         "setpack_longarc" => Model::random_setpack(seed, n.min(7), rub, dom, true),
         x => panic!("unknown family {x}"),
